@@ -77,6 +77,7 @@ func vpResetJose() {
 	vpCurTime = vpNow().Unix()
 	vpTokIssuer, vpTokSubject, vpTokExp, vpTokNbf, vpTokIat = "", "", nil, nil, nil
 	vpTokCustom = customClaims{}
+	vpTokLacks, vpTokNoIssuer = [3]bool{}, false
 	vpTokClaimsMade = false
 	vpIdpAsked, vpPresentation = [2]bool{}, 0
 	vpMintSignerAlg, vpMintSignerKey, vpMintEncAlg, vpMintEncKeyAlg, vpMintEncKey = "", nil, "", "", nil
@@ -278,21 +279,73 @@ func vpClaims(t *jwt.JSONWebToken, key interface{}, dest ...interface{}) error {
 	if !vpTokClaimsMade {
 		vpSymClaims(vpClaimLen)
 	}
+	// JSON decoding fills what the payload carries and leaves every other field of the destination untouched
 	for _, d := range dest {
 		switch c := d.(type) {
 		case *jwt.Claims:
-			c.Issuer = vpTokIssuer
+			if !vpTokNoIssuer {
+				c.Issuer = vpTokIssuer
+			}
 			c.Subject = vpTokSubject
-			c.Expiry = vpTokExp
-			c.NotBefore = vpTokNbf
-			c.IssuedAt = vpTokIat
+			if vpTokExp != nil {
+				c.Expiry = vpTokExp
+			}
+			if vpTokNbf != nil {
+				c.NotBefore = vpTokNbf
+			}
+			if vpTokIat != nil {
+				c.IssuedAt = vpTokIat
+			}
 		case *customClaims:
-			*c = vpTokCustom
+			if !vpTokLacks[0] {
+				c.RemoteServer = vpTokCustom.RemoteServer
+			}
+			if !vpTokLacks[1] {
+				c.ClientIP = vpTokCustom.ClientIP
+			}
+			if !vpTokLacks[2] {
+				c.AccessToken = vpTokCustom.AccessToken
+			}
 		default:
-			vpUnsupported("Claims destination type")
+			// any other destination: encoding/json's rules applied to its static type
+			if err := vpJSONDecodeObject(d, vpTokMembers()); err != nil {
+				return err
+			}
 		}
 	}
 	return nil
+}
+
+// vpTokLacks: the payload carries no remoteServer / clientIp / accessToken member (a validly signed
+// token of an unusual shape); vpTokNoIssuer: no iss member.
+var vpTokLacks [3]bool
+var vpTokNoIssuer bool
+
+func vpTokMembers() []vpJSONMember {
+	var ms []vpJSONMember
+	if !vpTokNoIssuer {
+		ms = append(ms, vpJSONMember{Name: "iss", S: vpTokIssuer})
+	}
+	ms = append(ms, vpJSONMember{Name: "sub", S: vpTokSubject})
+	if vpTokExp != nil {
+		ms = append(ms, vpJSONMember{Name: "exp", Kind: 1, N: int64(*vpTokExp)})
+	}
+	if vpTokNbf != nil {
+		ms = append(ms, vpJSONMember{Name: "nbf", Kind: 1, N: int64(*vpTokNbf)})
+	}
+	if vpTokIat != nil {
+		ms = append(ms, vpJSONMember{Name: "iat", Kind: 1, N: int64(*vpTokIat)})
+	}
+	if !vpTokLacks[0] {
+		ms = append(ms, vpJSONMember{Name: "remoteServer", S: vpTokCustom.RemoteServer})
+	}
+	if !vpTokLacks[1] {
+		ms = append(ms, vpJSONMember{Name: "clientIp", S: vpTokCustom.ClientIP})
+	}
+	if !vpTokLacks[2] {
+		ms = append(ms, vpJSONMember{Name: "accessToken", S: vpTokCustom.AccessToken})
+	}
+	return ms
 }
 
 // vpSymClaims chooses the (symbolic) claims the verified payload carries. It runs lazily, when
